@@ -18,7 +18,7 @@ func init() {
 	register(&Prop{ID: "C08", Run: runC08,
 		Rule: "for every wire limit the statement names, the values L-1, L, L+1, L+2, every 2^k-1 / 2^k / 2^k+1 up to the Go field's width and the wrap points 256/257 and 65536/65537, crossed with the position in the enclosing list (first / middle / last) and the rest of the packet at its tagged base. Above the limit Marshal must fail with no bytes; at or below it must succeed with exactly the reference encoding (so every count/length/bounded field represents the content). Non-trivial = values at or above L-1",
 		Assumptions: []string{
-			"only the limits listed in the statement are asserted; silent masking of scalar fields wider than their wire width (SLI First/Number/Picture, TWCC ReferenceTime, run length, CCFB offset/ECN, XR T/ToH) and of NACK/SLI/FIR list sizes beyond the 16-bit length field is recorded in the evidence but not judged",
+			"silent masking of scalar fields wider than their wire width (SLI First/Number/Picture, TWCC ReferenceTime, run length, CCFB offset/ECN, XR T/ToH) is not among the limits the statement lists and is not judged; the 16-bit length field is judged for every type whose size is unbounded (space length-field)",
 		},
 		BoundsQuick:    "counts {0,1,30,31,32,33,255,256,257}; texts {0,1,254,255,256,257,511,512}; TotalLost all 2^k-1,2^k,2^k+1 for k<=32 at 3 positions in SR and RR; REMB SSRCs {254..257,512}; CCFB metric blocks {16383..16386,32768} at 3 block positions; APP names 0..8 octets; TWCC delta boundary ticks at every position of lists of <= 3",
 		BoundsThorough: "adds counts/texts 65535,65536,65537 and CCFB 65535..65537",
@@ -423,14 +423,83 @@ func runC08(c *bx.Ctx) {
 			}
 		}
 	}
-	// observed, not judged: list sizes of NACK / SLI / FIR beyond what the length field can express
-	c.Space("observed-not-judged")
-	if c.Mine() {
-		for _, n := range []int{253, 254, 255, 256} {
-			p := &rtcp.TransportLayerNack{SenderSSRC: 1, MediaSSRC: 2, Nacks: make([]rtcp.NackPair, n)}
-			_, err, _ := safeMarshal(p)
-			c.T(1)
-			c.Note(fmt.Sprintf("observed: TransportLayerNack with %d pairs -> error=%v", n, err != nil))
+	// the length field itself: it counts 32-bit words minus one in 16 bits, so 262144 octets is the largest packet.
+	// Whatever is larger must be refused; whatever marshals must carry a length field that describes it.
+	c.Space("length-field")
+	type big struct {
+		name string
+		mk   func() rtcp.Packet
+	}
+	var bigs []big
+	for _, total := range []int{262136, 262140, 262144, 262148, 262140 + 65536, 2 * 262144, 2*262144 + 28} {
+		total := total
+		bigs = append(bigs, big{fmt.Sprintf("SenderReport of %d octets (profile extensions)", total), func() rtcp.Packet {
+			return &rtcp.SenderReport{SSRC: 1, ProfileExtensions: make([]byte, total-28)}
+		}})
+		bigs = append(bigs, big{fmt.Sprintf("ReceiverReport of %d octets (profile extensions)", total), func() rtcp.Packet {
+			return &rtcp.ReceiverReport{SSRC: 1, ProfileExtensions: make([]byte, total-8)}
+		}})
+		bigs = append(bigs, big{fmt.Sprintf("ExtendedReport of %d octets (one unknown block)", total), func() rtcp.Packet {
+			return &rtcp.ExtendedReport{SenderSSRC: 1, Reports: []rtcp.ReportBlock{&rtcp.UnknownReportBlock{XRHeader: rtcp.XRHeader{BlockType: 9}, Bytes: make([]byte, total-12)}}}
+		}})
+		bigs = append(bigs, big{fmt.Sprintf("ExtendedReport of %d octets (two unknown blocks)", total), func() rtcp.Packet {
+			h := (total - 16) / 8 * 4
+			return &rtcp.ExtendedReport{SenderSSRC: 1, Reports: []rtcp.ReportBlock{
+				&rtcp.UnknownReportBlock{XRHeader: rtcp.XRHeader{BlockType: 9}, Bytes: make([]byte, h)},
+				&rtcp.UnknownReportBlock{XRHeader: rtcp.XRHeader{BlockType: 10}, Bytes: make([]byte, total-16-h)}}}
+		}})
+		if (total-12)%8 == 0 {
+			bigs = append(bigs, big{fmt.Sprintf("FullIntraRequest of %d octets (%d entries)", total, (total-12)/8), func() rtcp.Packet {
+				return &rtcp.FullIntraRequest{SenderSSRC: 1, MediaSSRC: 2, FIR: make([]rtcp.FIREntry, (total-12)/8)}
+			}})
+		}
+	}
+	for _, ni := range []int{32, 33, 34, 66} {
+		ni := ni
+		bigs = append(bigs, big{fmt.Sprintf("SourceDescription with 31 chunks of %d items of 255 octets", ni), func() rtcp.Packet {
+			p := &rtcp.SourceDescription{}
+			for ch := 0; ch < 31; ch++ {
+				k := rtcp.SourceDescriptionChunk{Source: uint32(ch)}
+				for i := 0; i < ni; i++ {
+					k.Items = append(k.Items, rtcp.SourceDescriptionItem{Type: rtcp.SDESNote, Text: strings.Repeat("t", 255)})
+				}
+				p.Chunks = append(p.Chunks, k)
+			}
+			return p
+		}})
+	}
+	for _, nb := range []int{7, 8, 9, 16} {
+		nb := nb
+		bigs = append(bigs, big{fmt.Sprintf("CCFeedbackReport with %d blocks of 16384 metric blocks", nb), func() rtcp.Packet {
+			p := &rtcp.CCFeedbackReport{SenderSSRC: 1}
+			for i := 0; i < nb; i++ {
+				p.ReportBlocks = append(p.ReportBlocks, rtcp.CCFeedbackReportBlock{MediaSSRC: uint32(i), MetricBlocks: make([]rtcp.CCFeedbackMetricBlock, 16384)})
+			}
+			return p
+		}})
+	}
+	for _, g := range bigs {
+		if !c.Mine() {
+			continue
+		}
+		p := g.mk()
+		b, err, pan := safeMarshal(p)
+		c.T(1)
+		rp := bx.Replay{Entry: "Marshal", Ops: g.name, Expected: "an error and no bytes, or bytes whose length field equals their size in words minus one"}
+		typ := TypeName(p)
+		switch {
+		case pan != "":
+			rp.Observed = "panic: " + pan
+			c.Report(keyJoin("C08/length-field", typ, "panic"), "Marshal panics on a packet near the largest expressible size", rp)
+		case err != nil && len(b) != 0:
+			rp.Observed = bx.Short(b)
+			c.Report(keyJoin("C08/length-field", typ, "bytes-with-error"), "Marshal returns bytes together with an error", rp)
+		case err == nil && (len(b) < 4 || len(b)%4 != 0 || (int(b[2])<<8|int(b[3])+1)*4 != len(b)):
+			rp.Observed = fmt.Sprintf("%d octets starting %s", len(b), bx.Short(b))
+			c.Report(keyJoin("C08/length-field", typ, "wrapped"), "Marshal succeeds on a packet larger than the length field can express: the length field is wrapped", rp)
+		default:
+			c.NT()
+			c.Note(fmt.Sprintf("length-field: %s -> error=%v", g.name, err != nil))
 		}
 	}
 }
